@@ -164,6 +164,12 @@ fn alphabet() -> Alphabet {
         255.0,
         16.0,
         2.5,
+        // the %.14g boundary of tostring / `..` (seeded C08-m9): 14 and 15 significant digits inside [1e-4, 1e14)
+        12345678.901234,
+        12345678.9012345,
+        1.00000000000001,
+        0.123456789012345,
+        99999999999999.0,
     ] {
         literals.push(num(v));
     }
@@ -455,7 +461,7 @@ fn random_number(rng: &mut Rng) -> f64 {
         0 => rng.range(-3, 20) as f64,
         1 => (rng.range(-30, 30) as f64) / 8.0,
         2 => f64::from_bits(rng.next_u64()),
-        3 => *rng.pick(&[1e15, 1e16, 1e21, 1e-5, 1e-4, 0.1, 0.2, 0.3, 1e-20, 2e-20, 1e300, 4.5e15, 2.220446049250313e-16]),
+        3 => *rng.pick(&[1e15, 1e16, 1e21, 1e-5, 1e-4, 0.1, 0.2, 0.3, 1e-20, 2e-20, 1e300, 4.5e15, 2.220446049250313e-16, 12345678.9012345, 1.00000000000001, 0.123456789012345, 0.00012345678901234, 1234567.89012345, 99999999999999.0]),
         4 => (rng.range(0, 1 << 20) as f64) * 1e-3,
         _ => (rng.next_u64() >> 11) as f64,
     }
